@@ -132,7 +132,7 @@ func main() {
 	case "oracle":
 		var c proto.Corpus
 		readJSON(*corpusPath, &c)
-		runOracle(&c, *order, *ids, *seed, *free)
+		runOracle(&c, *order, *ids, *seed, *free, *budgetMs)
 	case "records":
 		var c proto.Corpus
 		var e proto.Expected
@@ -160,7 +160,7 @@ func main() {
 	}
 }
 
-func runOracle(c *proto.Corpus, order, ids string, seed uint64, free bool) {
+func runOracle(c *proto.Corpus, order, ids string, seed uint64, free bool, budgetMs int64) {
 	var sel []int
 	if ids != "" {
 		for _, s := range strings.Split(ids, ",") {
@@ -213,7 +213,13 @@ func runOracle(c *proto.Corpus, order, ids string, seed uint64, free bool) {
 	// steps are measured by running each call as a one-task simulated run when the build
 	// is instrumented (seq policy: no preemption)
 	c0 := capSize()
+	t0 := time.Now()
 	for si, id := range sel {
+		if order == "soak" && budgetMs > 0 && si%64 == 0 && time.Since(t0).Milliseconds() > budgetMs {
+			// a tree whose calls are slow: the soak pass is as long as the time allows
+			// (every call it did make is still compared with the call alone)
+			break
+		}
 		progress(strconv.Itoa(si))
 		call := c.Calls[id]
 		var a *argSlice
@@ -290,7 +296,11 @@ func runSim(c *proto.Corpus, e *proto.Expected, seed uint64, proc, runs int, bui
 		die("no usable calls")
 	}
 	if !free {
+		// collections happen where the run record says (gc events, end of each run); the
+		// memory limit is only the safety net for a tree whose calls allocate so much that
+		// one run would not fit in memory otherwise
 		debug.SetGCPercent(-1)
+		debug.SetMemoryLimit(1536 << 20)
 	}
 	res := proto.ProcResult{Seed: seed, Proc: proc, Build: build, Mode: "sim", PolicyRuns: map[string]int{}, Faults: map[string]int{},
 		Probes: map[string]int{}, TasksHist: make([]int, simrt.MaxTasks+1), NumSites: simrt.NumSites, Instrument: simrt.Instrumented}
@@ -428,7 +438,11 @@ func toProtoEvents(ev []simrt.Event, max int) []proto.Event {
 func runReplay(rec *proto.Record, build string, free bool, searchN, searchOff int) {
 	t0 := time.Now()
 	if !free {
+		// collections happen where the run record says (gc events, end of each run); the
+		// memory limit is only the safety net for a tree whose calls allocate so much that
+		// one run would not fit in memory otherwise
 		debug.SetGCPercent(-1)
+		debug.SetMemoryLimit(1536 << 20)
 	}
 	res := proto.ProcResult{Seed: rec.Seed, Proc: rec.Proc, Build: build, Mode: "replay", NumSites: simrt.NumSites, Instrument: simrt.Instrumented}
 	var viol []proto.Violation
